@@ -164,7 +164,9 @@ func c06SigningAuthority(c *Ctx, ATS, T *ssa.Function) {
 		}
 	}
 	// success on the non-x509 side only through the loop
-	cut := fi.edgesMatching(func(l string, _ *ssa.If, _ bool) bool { return strings.HasPrefix(l, "EQ(") && strings.HasSuffix(l, schemeEQ) })
+	cut := fi.edgesMatching(func(l string, _ *ssa.If, _ bool) bool {
+		return strings.HasPrefix(l, "EQ(") && strings.HasSuffix(l, schemeEQ)
+	})
 	cutInto(fi, loop.Header, cut)
 	wit := fi.successWitness(Mode{Kind: mObj, K: 0}, entryState(), cut)
 	wit2 := fi.successWitness(Mode{Kind: mObj, K: 0}, []state{{loop.Body.Index, 0, -1}}, backEdges(loop.Header))
